@@ -12,7 +12,7 @@ mod vk {
     }
     #[cfg(not(kani))]
     fn next<const N: usize>() -> [u8; N] {
-        let v = QUEUE.with(|q| q.borrow_mut().pop_front()).expect("VERIF-REPLAY-EXHAUSTED");
+        let v = QUEUE.with(|q| q.borrow_mut().pop_front()).unwrap_or_else(|| panic!("{}//{}", "VERIF-REPLAY", "EXHAUSTED"));
         let mut a = [0u8; N];
         for (i, b) in v.iter().take(N).enumerate() { a[i] = *b; }
         a
@@ -33,9 +33,9 @@ mod vk {
     #[cfg(not(kani))] pub fn bool() -> bool { next::<1>()[0] != 0 }
 
     #[cfg(kani)] #[inline(always)] pub fn assume(c: bool) { kani::assume(c) }
-    #[cfg(not(kani))] pub fn assume(c: bool) { if !c { panic!("VERIF-REPLAY-OUTSIDE-ASSUMPTIONS") } }
+    #[cfg(not(kani))] pub fn assume(c: bool) { if !c { panic!("{}//{}", "VERIF-REPLAY", "OUTSIDE-ASSUMPTIONS") } }
 
-    #[cfg(not(kani))] pub fn violated(label: &'static str) -> ! { panic!("VERIF-REPLAY-VIOLATED {}", label) }
+    #[cfg(not(kani))] pub fn violated(label: &'static str) -> ! { panic!("{}//{} {}", "VERIF-REPLAY", "VIOLATED", label) }
 
     #[cfg(not(kani))]
     pub fn load_replay() -> Option<String> {
